@@ -129,6 +129,14 @@ check('C12', 'exploration', 'round-trip oracle on the real InpFile writer/reader
       'unit and both versions and read back twice; every differing path is reported with its path class; the statement\'s exclusions are removed from both sides.',
       'Tolerance 1e-6 relative (+ printed-field resolution); simple-control and source names, element order inside a section are not compared.', 'DESIGN.md#C12')
 
+check('C03', 'exploration', 'differential monitors on the reported result tables: WNTRSimulator vs EpanetSimulator per report step; EpanetSimulator x 10 INP unit systems; EPANET toolkit on original INP text vs WaterNetworkModel(inp)+EpanetSimulator',
+      'Common-feature random networks (tanks incl. volume curves, 1/3-point and power pumps, PRV/PSV/FCV/TCV, check valves, patterns, pattern_start, '
+      'controls, rules, DD and PDD): heads, pressures, demands, flows, tank levels and open/closed timelines of the two engines at every report step '
+      '(until a tank touches a level limit), all ten unit systems against each other, and INP text emitted with an independent unit table (plus example files) '
+      'run directly through the EPANET toolkit against the same text read and re-simulated through WNTR.',
+      'Trusted: libepanet 2.2. Tolerances are wider than convergence where the engines use different constants (power pumps 7.7e-4) or EPANET itself converts units with '
+      '4-5 digit constants; bistable check-valve states, near ties and tank-limit cycles are not held against either engine.', 'DESIGN.md#C03')
+
 NOT_YET = 'monitor not built yet in this commit (planned in DESIGN.md section 4)'
 ALL = ['C%02d' % i for i in range(1, 21)]
 
